@@ -20,6 +20,7 @@ import (
 	"runtime"
 	"runtime/debug"
 	"strings"
+	"unsafe"
 
 	"github.com/postalsys/muti-metroo/internal/protocol"
 	"github.com/postalsys/muti-metroo/verifharness/vh"
@@ -428,5 +429,8 @@ func (rn *runner) writeCases() {
 	}
 	sb.WriteString("Definition cases : list case := List.concat [" + strings.Join(names, "; ") + "].\n")
 	sb.WriteString("Definition M := Eval vm_compute in mismatches cases.\nPrint M.\n")
+	// Go element sizes used by the model's pre-allocation ledger
+	sb.WriteString(fmt.Sprintf("Definition Msizes : list N := Eval vm_compute in (if andb (N.eqb sizeof_RA %d) (andb (N.eqb sizeof_RW %d) (N.eqb sizeof_NIA %d)) then nil else cons 0 nil).\nPrint Msizes.\n",
+		unsafe.Sizeof(protocol.RouteAdvertise{}), unsafe.Sizeof(protocol.RouteWithdraw{}), unsafe.Sizeof(protocol.NodeInfoAdvertise{})))
 	rn.c.WriteCasesV("cases.v", sb.String())
 }
